@@ -5,7 +5,16 @@ V = os.path.dirname(os.path.dirname(os.path.abspath(__file__)))
 ALL = ["C%02d" % i for i in range(1, 21)]
 TECH = "TLA+ spec checked by TLC (bounded exhaustive) + replay of the dumped TLC state graph into the real code + TLC trace validation"
 CLAIMS = {
- "C12": dict(engine="seqs", design="4/C12, 3.2",
+ "C05": dict(engine="structs", design="4/C05, 3.4",
+   text="MapAbs.tla (dictionary with nondeterministic iteration order, key-copy ledger, destructor fates) is model-checked exhaustively by TLC on bounded configs (3 keys x 3 values, all flag combinations); its dumped state graph is replayed into the real map with plain keys, keys sharing one home slot and three key sets whose chains wrap around the end of the 256-slot table (all paths up to D mutating steps with all queries at every node, edge cover, random walks), comparing return values, full contents, length, iterator position, destructor counts and the allocator ledger (private key copies) after every step.",
+   note="Bounded: 3 keys/3 values in E1/E2. Iteration order is followed by observation. Trusted: TLC, dot parser, driver projection, a copy of the public hash used only to search adversarial keys."),
+ "C10": dict(engine="structs", design="4/C10, 3.1",
+   text="Mem.tla (population of ref-counted blocks with nested destructors, per-step destructor/free event log) is model-checked by TLC; the dumped graph is replayed into m_mem_* (all paths, edge cover, walks) comparing return values, the order of destructor/free events seen by the allocator ledger, reported size, pointer alignment and content integrity; a recorded trace covering every size 0..N (all residues mod 16) and a random 8-block population is validated by TLC against MemTrace.tla.",
+   note="Bounded: 3 blocks / 3 refs in E1/E2; sizes beyond by trace validation. Precondition: references dropped by their owner only."),
+ "C11": dict(engine="structs", design="4/C11, 3.3",
+   text="Bst.tla (ordered set by comparator key, ascending iterator, destructor fates; tree shape deliberately unmodelled) is model-checked by TLC; its dumped graph (5 elements: all insertion orders and removal orders are paths) is replayed into m_bst_* with a user comparator having equal keys and with the default comparator on addresses 2^31 and 2^32 apart, comparing return values, in-order content, length, iterator element, pre/post-order consistency with one BST, destructor target identity and the allocator ledger after every step.",
+   note="Bounded: 5 elements. Precondition: no mutation behind a live iterator."),
+ "C12": dict(engine="structs", design="4/C12, 3.2",
    text="Seqs.tla (queue/stack/list as one abstract sequence machine with iterator cursor) is model-checked exhaustively by TLC on bounded configs (3 elements, length<=3, destructor on/off, comparator on/off) against the C12 monitors; the dumped state graph is then replayed into the real containers built from /repo (all paths up to depth D, an edge cover, seeded random walks) comparing return values, full contents, length, iterator liveness and destructor counts after every step, under ASan/UBSan and an allocator ledger.",
    note="Bounded: 3 elements / length 3; longer histories only by random walks. Precondition: no mutation behind a live iterator. Trusted: TLC, the dot-graph parser, the driver's projection code."),
 }
@@ -34,7 +43,7 @@ def main():
                 "baseline_off_cmd": "cmake --build /repo/_build && ctest --test-dir /repo/_build -j8 --timeout 900",
                 "source_commits": [], "add_only": True},
       "engines": [
-        {"name": "seqs", "path": "spec/Seqs.tla harness/drv_seqs.c", "serves_properties": ["C12"], "kind_free_text": "TLC + graph replay"},
+        {"name": "structs", "path": "spec/{Seqs,Bst,MapAbs,Mem,MemTrace}.tla harness/drv_{seqs,bst,map,mem}.c harness/gw.h", "serves_properties": ["C05", "C10", "C11", "C12"], "kind_free_text": "TLC bounded model checking + replay of the dumped state graph into the real code + TLC trace validation"},
       ],
       "checks": checks,
       "not_applicable": [{"property_id": p, "reason": NOT_YET} for p in ALL if p not in CLAIMS],
